@@ -65,6 +65,7 @@ where
     };
     let mut found = false;
     let mut completed_bound: i64 = -1;
+    let mut last_example: Option<Value> = None;
     let mut last_distinct = 0u64;
     for b in bounds {
         let ecfg = ExploreCfg {
@@ -77,6 +78,7 @@ where
         let mut first: Option<(Vec<(String, String)>, RunResult, O)> = None;
         let mut outcomes: Vec<u64> = Vec::new();
         let mut leak_stop = false;
+        let mut example: Option<(u32, Vec<(usize, u32, u32)>, usize, String)> = None;
         explore(
             &ecfg,
             Node {
@@ -98,6 +100,17 @@ where
                     return (res, true);
                 }
                 leaked_here += res.leaked_threads as u64;
+                if example.as_ref().map_or(true, |e| node.spent >= e.0) {
+                    // an execution with the most deviations so far: where it left the default schedule
+                    let nondefault: Vec<(usize, u32, u32)> = res
+                        .decisions
+                        .iter()
+                        .enumerate()
+                        .filter(|(_, d)| d.chosen != 0)
+                        .map(|(i, d)| (i, d.chosen, d.n))
+                        .collect();
+                    example = Some((node.spent, nondefault, res.decisions.len(), format!("{:?}", res.end)));
+                }
                 let fails = judge(&ob, &res);
                 outcomes.push(res.trace_hash);
                 outcome_set.insert(hash_str(&format!("{:?}/{:?}", ob, res.end)));
@@ -114,6 +127,15 @@ where
                 (res, true)
             },
         );
+        if let Some((spent, nd, depth, end)) = example {
+            if b == cfg.bound || cfg.bound.is_none() {
+                last_example = Some(json!({
+                    "scenario": scenario, "mode": mode_name(cfg.mode), "bound": b, "executions_at_this_bound": stats.execs,
+                    "example_execution": {"deviations": spent, "decision_points": depth, "ended": end,
+                        "non_default_choices": nd.iter().map(|(i, c, n)| json!({"at_decision": i, "alternative": c, "of": n})).collect::<Vec<_>>()},
+                }));
+            }
+        }
         acc.execs += stats.execs;
         acc.evals += stats.execs;
         acc.decisions += stats.decisions;
@@ -186,6 +208,13 @@ where
     }
     acc.distinct_traces += last_distinct;
     acc.leaked_threads += leaked_here;
+    if !found {
+        if let Some(ex) = last_example {
+            if ex["example_execution"]["deviations"].as_u64().unwrap_or(0) > 0 || acc.samples.is_empty() {
+                acc.sample(ex);
+            }
+        }
+    }
     // distinct observations of this scenario (salted with the scenario so that equal
     // observations of different scenarios stay distinct)
     let salt = hash_str(&scenario.to_string());
